@@ -53,6 +53,9 @@ pub struct WorldShared {
     pub boundaries: Vec<Vec<V>>,
     /// Indices into `boundaries` of the states produced by a commit that changed the contents.
     pub commit_bidx: Vec<usize>,
+    /// Set during a poll in which the writer may run (F8): index of the newest boundary when the poll
+    /// began. "Current contents" then means any state the vector had since.
+    pub poll_floor: Option<usize>,
     pub dropped: bool,
     pub capacity: usize,
     pub auditor_on: bool,
@@ -81,6 +84,12 @@ impl ConsumerShared {
             let mut p = props(ps);
             if self.chain_len > 1 && stage > 0 && !p.iter().any(|x| x == "C12") {
                 p.push("C12".into());
+            }
+            // C08: what the raw stream delivers after the vector was dropped is "what is still
+            // pending"; an item that is wrong at that point is also a failure to end on the final state
+            const AFTER_DROP: &[&str] = &["inapplicable_diff", "diff_depends_on_polling", "replay_mismatch_at_boundary", "batched_intermediate_state", "batched_not_up_to_date", "reset_inside_batch"];
+            if stage == 0 && AFTER_DROP.contains(&oracle) && env.borrow().dropped && !p.iter().any(|x| x == "C08") {
+                p.push("C08".into());
             }
             *v = Some(Violation { props: p, oracle: oracle.into(), stage, step: env.borrow().step, detail });
         }
@@ -234,7 +243,9 @@ impl TapState {
                 raw.cursor = w.msgs.len();
                 raw.partial = 0;
             }
-            if values != w.contents {
+            // (F8: if the writer ran during this poll, the Reset was current when the library read it)
+            let current = values == w.contents || w.poll_floor.map_or(false, |f| w.boundaries[f..].iter().any(|b| *b == values));
+            if !current {
                 let detail = format!("Reset carries {:?} but the vector contains {:?}", values, w.contents);
                 // after the drop this is also what the stream ends on (C08)
                 let dropped = w.dropped;
@@ -246,7 +257,12 @@ impl TapState {
                 }
                 return;
             }
-            raw.bidx = w.boundaries.len() - 1;
+            raw.bidx = if values == w.contents {
+                w.boundaries.len() - 1
+            } else {
+                let f = w.poll_floor.unwrap_or(0).max(raw.bidx);
+                (f..w.boundaries.len()).find(|&j| w.boundaries[j] == values).unwrap_or(w.boundaries.len() - 1)
+            };
             drop(w);
             if let Err(e) = checked_apply(&mut self.replica, &diffs[0]) {
                 cs.violate(env, &["C06"], "inapplicable_diff", 0, e);
@@ -312,7 +328,8 @@ impl TapState {
                 }
                 Some(j) => {
                     raw.bidx = j;
-                    if r != w.contents {
+                    let current = r == w.contents || w.poll_floor.map_or(false, |f| w.boundaries[f.max(j)..].iter().any(|b| *b == r));
+                    if !current {
                         let detail = format!(
                             "a batched item left the replica at {:?} while the vector contains {:?}",
                             r, w.contents
